@@ -134,6 +134,98 @@ std::string checkLookups(Tree& tree, const rm::ModelTree& mt, const FmmCase& c, 
     return "";
 }
 
+
+// C14 (group part): byte copies of a group's buffers, viewed through the raw-memory constructors, are equivalent groups
+std::string checkGroupCopies(Tree& tree, const FmmCase& c, probe::Ctx& ctxModel, long& nbGroups){
+    using CellGroup = typename Tree::CellGroupClass;
+    using LeafGroup = typename Tree::LeafGroupClass;
+    const Config config = fh::makeConfig<Real, Dim>(c);
+    TbfGroupKernelInterface<SI> wrapper(config);
+    const SI& sp = tree.getSpacialSystem();
+    auto copyBuf = [](const unsigned char* p, size_t n, std::vector<std::vector<unsigned char>>& store) -> unsigned char* {
+        store.emplace_back(n + 64);
+        unsigned char* q = store.back().data();
+        while(reinterpret_cast<uintptr_t>(q) % 16) ++q;
+        if(n) std::memcpy(q, p, n);
+        return q;
+    };
+    const int H = c.height;
+    for(int l = 0 ; l < H ; ++l){
+        for(auto& g : tree.getCellGroupsAtLevel(l)){
+            nbGroups += 1;
+            std::vector<std::vector<unsigned char>> store;
+            auto ps = g.getDataPtrsAndSizes();
+            std::array<std::pair<unsigned char*, size_t>, 3> cp;
+            for(size_t k = 0 ; k < 3 ; ++k) cp[k] = std::make_pair(copyBuf(ps[k].first, ps[k].second, store), ps[k].second);
+            CellGroup view(cp);
+            if(view.getNbCells() != g.getNbCells() || view.getStartingSpacialIndex() != g.getStartingSpacialIndex() || view.getEndingSpacialIndex() != g.getEndingSpacialIndex()) return "cell group copy: header differs";
+            for(long i = 0 ; i < g.getNbCells() ; ++i){
+                if(view.getCellSpacialIndex(i) != g.getCellSpacialIndex(i) || view.getCellBoxCoord(i) != g.getCellBoxCoord(i)) return "cell group copy: symbolic data of cell " + std::to_string(i) + " differs";
+                if(view.getCellMultipole(i) != g.getCellMultipole(i) || view.getCellLocal(i) != g.getCellLocal(i)) return "cell group copy: expansion of cell " + std::to_string(i) + " differs";
+                const unsigned char* a = reinterpret_cast<const unsigned char*>(&view.getCellMultipole(i));
+                if(a < cp[1].first || a + sizeof(gf::Val) > cp[1].first + cp[1].second) return "cell group copy: multipole accessor leaves its buffer";
+                a = reinterpret_cast<const unsigned char*>(&view.getCellLocal(i));
+                if(a < cp[2].first || a + sizeof(gf::Val) > cp[2].first + cp[2].second) return "cell group copy: local accessor leaves its buffer";
+                if(view.getElementFromSpacialIndex(g.getCellSpacialIndex(i)) != std::optional<long int>(i)) return "cell group copy: lookup differs";
+            }
+        }
+    }
+    // particle groups + operators on copies
+    auto& pgs = tree.getParticleGroups();
+    auto& lgs = tree.getLeafGroups();
+    for(size_t ig = 0 ; ig < pgs.size() ; ++ig){
+        nbGroups += 1;
+        std::vector<std::vector<unsigned char>> store;
+        auto pp = pgs[ig].getDataPtrsAndSizes();
+        std::array<std::pair<unsigned char*, size_t>, 2> cpp;
+        for(size_t k = 0 ; k < 2 ; ++k) cpp[k] = std::make_pair(copyBuf(pp[k].first, pp[k].second, store), pp[k].second);
+        LeafGroup pview(cpp);
+        if(pview.getNbLeaves() != pgs[ig].getNbLeaves() || pview.getNbParticles() != pgs[ig].getNbParticles()) return "particle group copy: header differs";
+        for(long i = 0 ; i < pgs[ig].getNbLeaves() ; ++i){
+            if(pview.getLeafSpacialIndex(i) != pgs[ig].getLeafSpacialIndex(i) || pview.getNbParticlesInLeaf(i) != pgs[ig].getNbParticlesInLeaf(i) || pview.getLeafBoxCoord(i) != pgs[ig].getLeafBoxCoord(i)) return "particle group copy: leaf header differs";
+            const long np = pgs[ig].getNbParticlesInLeaf(i);
+            auto d0 = pgs[ig].getParticleData(i); auto d1 = pview.getParticleData(i);
+            auto r0 = pgs[ig].getParticleRhs(i); auto r1 = pview.getParticleRhs(i);
+            const long* i0 = pgs[ig].getParticleIndexes(i); const long* i1 = pview.getParticleIndexes(i);
+            for(long p = 0 ; p < np ; ++p){
+                if(i0[p] != i1[p]) return "particle group copy: index differs";
+                for(size_t v = 0 ; v < d0.size() ; ++v){
+                    if(std::memcmp(&d0[v][p], &d1[v][p], sizeof(DataT)) != 0) return "particle group copy: data value differs";
+                    const unsigned char* a = reinterpret_cast<const unsigned char*>(&d1[v][p]);
+                    if(a < cpp[0].first || a + sizeof(DataT) > cpp[0].first + cpp[0].second) return "particle group copy: data accessor leaves its buffer";
+                }
+                for(size_t v = 0 ; v < r0.size() ; ++v){
+                    if(r0[v][p] != r1[v][p]) return "particle group copy: result value differs";
+                    const unsigned char* a = reinterpret_cast<const unsigned char*>(&r1[v][p]);
+                    if(a < cpp[1].first || a + sizeof(uint64_t) > cpp[1].first + cpp[1].second) return "particle group copy: result accessor leaves its buffer";
+                }
+            }
+        }
+        // operators on the copy compute what they compute on the original (P2M, M2L in group, L2P, P2P in group + inner)
+        auto cps = lgs[ig].getDataPtrsAndSizes();
+        std::array<std::pair<unsigned char*, size_t>, 3> ccp;
+        for(size_t k = 0 ; k < 3 ; ++k) ccp[k] = std::make_pair(copyBuf(cps[k].first, cps[k].second, store), cps[k].second);
+        CellGroup cview(ccp);
+        probe::Ctx c1(c.salt), c2(c.salt);
+        for(probe::Ctx* x : {&c1, &c2}){ x->dim = Dim; x->height = H; x->base = H - 1; x->checking = false; x->logging = false; }
+        Kernel k1(&c1), k2(&c2);
+        wrapper.P2M(k1, pgs[ig], lgs[ig]); wrapper.P2M(k2, pview, cview);
+        auto il1 = sp.getInteractionListForBlock(lgs[ig], H - 1); auto il2 = sp.getInteractionListForBlock(cview, H - 1);
+        if(il1.first.size() != il2.first.size() || il1.second.size() != il2.second.size()) return "group copy: interaction list of the copy differs";
+        wrapper.M2LInGroup(H - 1, k1, lgs[ig], il1.first); wrapper.M2LInGroup(H - 1, k2, cview, il2.first);
+        wrapper.L2P(k1, lgs[ig], pgs[ig]); wrapper.L2P(k2, cview, pview);
+        auto nl1 = sp.getNeighborListForBlock(pgs[ig], H - 1, true); auto nl2 = sp.getNeighborListForBlock(pview, H - 1, true);
+        if(nl1.first.size() != nl2.first.size() || nl1.second.size() != nl2.second.size()) return "group copy: neighbour list of the copy differs";
+        wrapper.P2PInGroup(k1, pgs[ig], nl1.first); wrapper.P2PInGroup(k2, pview, nl2.first);
+        wrapper.P2PInner(k1, pgs[ig]); wrapper.P2PInner(k2, pview);
+        if(std::memcmp(ccp[1].first, cps[1].first, cps[1].second) != 0) return "operators on a copied group give different multipoles";
+        if(std::memcmp(ccp[2].first, cps[2].first, cps[2].second) != 0) return "operators on a copied group give different locals";
+        if(cpp[1].second && std::memcmp(cpp[1].first, pp[1].first, pp[1].second) != 0) return "operators on a copied group give different particle results";
+    }
+    (void)ctxModel;
+    return "";
+}
+
 // C17: bulk export
 std::string checkExport(Tree& tree, const Built& b, const TreeValues& tv){
     const long N = long(b.mt.leafOf.size());
@@ -275,6 +367,11 @@ std::string propSingle(const FmmCase& c, const std::string& prop){
         std::string e = checkLookups(*b.tree, b.mt, c, nbQueries, nbGapQueries);
         if(!e.empty()) return "lookup: " + e;
     }
+    long nbGroupsCopied = 0;
+    if(prop == "C14"){
+        std::string e = checkGroupCopies(*b.tree, c, ctx, nbGroupsCopied);
+        if(!e.empty()) return "group copy: " + e;
+    }
     TreeValues tv;
     if(wantExport || wantGrouping || prop == "C12") tv = collect(*b.tree, b.mt.leafOf.size());
     if(wantExport){
@@ -335,6 +432,7 @@ std::string propSingle(const FmmCase& c, const std::string& prop){
     if(prop == "C08"){ long calls1 = 0; for(int o = 0 ; o < probe::NbOps ; ++o) calls1 += ctx.calls[o]; nontrivial = calls2 >= 0 && calls1 != calls2; if(nontrivial) st.cls("groupings-batch-differently"); }
     if(prop == "C12"){ nontrivial = calls.size() >= 3 && H >= 3; st.cls("calls=" + std::to_string(calls.size())); st.cls("lstop=" + std::to_string(lstop)); }
     if(prop == "C07") nontrivial = leafGroups >= 3;
+    if(prop == "C14"){ st.cls("groups-copied", nbGroupsCopied); nontrivial = leafGroups >= 2 && b.mt.leafOf.size() > b.mt.leaves.size(); }
     if(prop == "C06") nontrivial = b.mt.leafOf.size() >= 2 && (b.mt.onFace > 0 || c.width[0] != 1.0);
     if(prop == "C02"){ nontrivial = H - lstop >= 2 && ctx.elems[probe::OpM2L] > ctx.calls[probe::OpM2L]; }
     if(nontrivial) st.noteNontrivial(hc::hashCase(c), c);
